@@ -889,8 +889,15 @@ func (e *Eng) condLit(fn *ssa.Function, v ssa.Value, inline bool) Lit {
 			if isIntConst(y, 1) && isLenCall(x) {
 				return Lit{Atom: "(" + c.x(x) + " == 0)", Pos: pos}
 			}
-			// integers: a < b+1  ==  ¬(b < a);   a-1 < b  ==  ¬(b < a)
+			// integers: a < b+1  ==  ¬(b < a);   a-1 < b  ==  ¬(b < a);   c < a  ==  ¬(a < c+1)
 			if isIntType(x.Type()) {
+				if k, ok := x.(*ssa.Const); ok && k.Value != nil && k.Value.Kind() == constant.Int {
+					if _, yk := y.(*ssa.Const); !yk {
+						if ci, exact := constant.Int64Val(k.Value); exact && ci < 1<<62 {
+							return Lit{Atom: "(" + c.x(y) + " < " + fmt.Sprint(ci+1) + ")", Pos: !pos}
+						}
+					}
+				}
 				if yb, ok := y.(*ssa.BinOp); ok && yb.Op == token.ADD && isIntConst(yb.Y, 1) {
 					return Lit{Atom: "(" + c.x(yb.X) + " < " + c.x(x) + ")", Pos: !pos}
 				}
